@@ -1,4 +1,5 @@
 import HdVerif.Proofs.SegRoundtrip
+import HdVerif.Generated.T21
 /-! # C01  Segmentation masks survive encode, write and read unchanged
 
 Property theorems only (helper lemmas: `Proofs/SegEncode.lean`, `Proofs/SegCast.lean`, `Proofs/SegRoundtrip.lean`,
@@ -92,8 +93,10 @@ loop stores for the `j`-th described segment in plane `p` -- for LABELMAP: the o
 plane -- are the property's expectation computed from the *user's* mask (`expectedPlane`): the indicator of the
 segment (times `max_fractional_value` for FRACTIONAL) for bool/integer input, `round_half_even(q * mfv)` for
 fractional input. -/
-theorem segPlane_spec (segs : List Nat) (t : SegType) (mfv : Nat) (m arr : Mask) (ov : Overlap)
+theorem segPlane_spec (segs : List Nat) (t : SegType) (mfv n : Nat) (m arr : Mask) (ov : Overlap)
     (hsegs : checkSegs t segs = .ok ()) (hcast : castMask segs t m = .ok (arr, ov))
+    (hsz : ∀ sz ∈ m.planeSizes, sz = n) (hmfv : t = .fractional → mfv ≤ 255)
+    (bits : Nat) (hbits : bitsFor t segs = .ok bits)
     (j : Nat) (hj : j < segs.length) (p : Nat) (mpl : Plane) (hmp : m.plane? p = some mpl) :
     ∃ e, expectedPlane t mfv j segs[j] mpl = some e ∧
       (t ≠ .labelmap → cellE arr segs t mfv (some segs[j]) p = .ok e) ∧
@@ -101,7 +104,49 @@ theorem segPlane_spec (segs : List Nat) (t : SegType) (mfv : Nat) (m arr : Mask)
           lab.map (fun v => if v = segs[j] then 1 else 0) = e) := by
   have hs := checkSegs_ok t segs hsegs
   obtain ⟨hrel, _, _⟩ := castMask_rel segs t m arr ov hs hcast
-  exact cell_spec segs t mfv m arr hs hrel j hj p mpl hmp
+  exact cell_spec segs t mfv n m arr hs hrel hsz hmfv bits hbits j hj p mpl hmp
+
+/-- (5-casts) **No `astype` ever wraps.**  The model has a wrap-around cast (`wrap w v = v mod 2^w`, `w` = the
+width of the output pixel type: 8 for BINARY and FRACTIONAL, the LABELMAP depth otherwise) at every place the source
+has `astype(dtype)` -- after the comparison with the segment number, after channel selection, after `np.around`,
+after the multiplication by `max_fractional_value`, and on the LABELMAP planes (the cast sites are pinned by
+`cast_sites_pinned`).  On every cell of every accepted mask the computation with casts equals the computation
+without: in particular a label above 255 of a uint16 label map stored as BINARY/FRACTIONAL is compared *before*
+anything is narrowed to uint8. -/
+theorem casts_never_wrap (segs : List Nat) (t : SegType) (mfv n : Nat) (m arr : Mask) (ov : Overlap)
+    (hsegs : checkSegs t segs = .ok ()) (hcast : castMask segs t m = .ok (arr, ov))
+    (hsz : ∀ sz ∈ m.planeSizes, sz = n) (hmfv : t = .fractional → mfv ≤ 255)
+    (bits : Nat) (hbits : bitsFor t segs = .ok bits)
+    (sg : Option Nat) (hsg : sg ∈ segmentsIterable t segs) (p : Nat) (pl : Plane) (hp : arr.plane? p = some pl) :
+    cellE arr segs t mfv sg p = cellEU arr segs t mfv sg p := by
+  have hs := checkSegs_ok t segs hsegs
+  obtain ⟨hrel, _, _⟩ := castMask_rel segs t m arr ov hs hcast
+  obtain ⟨harr, _⟩ := arrOK_of_castRel segs t n m arr hs hrel hsz
+  exact cellE_eq_U segs t mfv n arr hs harr hmfv bits hbits sg hsg p pl hp
+
+/-- (5-pin) **Where the source casts** (tie T, target T21).  The statements of `_check_and_cast_pixel_array`,
+`_combine_segments` and `_get_segment_pixel_array` that narrow, round or scale pixel values -- regenerated from
+seg/sop.py on every run, each with the `if` tests it sits under -- are exactly the ones the model's `wrap`s,
+`quantise` and `stretch` stand for: no cast in the integer branch of `_check_and_cast_pixel_array`, the comparison
+`pixel_array == segment_number` *inside* the cast, rounding before the cast for fractions.  A cast that is added,
+removed or moved breaks this theorem. -/
+theorem cast_sites_pinned : segCastSites =
+  ["_check_and_cast_pixel_array | not(pixel_array.dtypein(np.bool_,np.uint8,np.uint16)) & pixel_array.dtypein(np.float32,np.float64) & segmentation_typein(SegmentationTypeValues.BINARY,SegmentationTypeValues.LABELMAP) | pixel_array=pixel_array.astype(dtype)",
+   "_check_and_cast_pixel_array | segmentation_type==SegmentationTypeValues.LABELMAP & pixel_array.ndim==4 | pixel_array=np.concatenate([np.array([0]),segment_numbers]).astype(dtype)[pixel_array]",
+   "_check_and_cast_pixel_array | segmentation_type==SegmentationTypeValues.LABELMAP & not(pixel_array.ndim==4) | pixel_array=pixel_array.astype(dtype)",
+   "_combine_segments | pixel_array.shape[3]==1 | returnpixel_array[:,:,:,0].astype(labelmap_dtype)",
+   "_combine_segments | - | indices=pixel_array.argmax(axis=3,out=indices)+1",
+   "_combine_segments | - | is_non_empty=pixel_array.max(axis=3,out=is_non_empty)",
+   "_get_segment_pixel_array | pixel_array.dtypein(np.float32,np.float64) | segment_array=np.around(segment_array*float(max_fractional_value))",
+   "_get_segment_pixel_array | pixel_array.dtypein(np.float32,np.float64) | segment_array=segment_array.astype(dtype)",
+   "_get_segment_pixel_array | not(pixel_array.dtypein(np.float32,np.float64)) & pixel_array.ndim==2 & np.array_equal(described_segment_numbers,np.array([1])) & pixel_array.dtype!=dtype | segment_array=pixel_array.astype(dtype)",
+   "_get_segment_pixel_array | not(pixel_array.dtypein(np.float32,np.float64)) & pixel_array.ndim==2 & not(np.array_equal(described_segment_numbers,np.array([1]))) | segment_array=(pixel_array==segment_number).astype(dtype)",
+   "_get_segment_pixel_array | not(pixel_array.dtypein(np.float32,np.float64)) & not(pixel_array.ndim==2) & segment_array.dtype!=dtype | segment_array=segment_array.astype(dtype)",
+   "_get_segment_pixel_array | not(pixel_array.dtypein(np.float32,np.float64)) & segmentation_type==SegmentationTypeValues.FRACTIONAL & int(max_fractional_value)!=1 | segment_array=segment_array*int(max_fractional_value)"] := by
+  rfl
+
+/-- ... and a cast in front of the comparison *would* wrap: label 300 narrowed to uint8 is 44 -/
+example : wrap 8 300 = 44 ∧ (if wrap 8 300 = 300 then 1 else 0) = (0 : Nat) := by decide
 
 /-- (6) **C01_roundtrip.**  For every segmentation type (BINARY, FRACTIONAL, LABELMAP), every layout and dtype
 class of the mask (2-D/3-D label map or 4-D stack; bool/unsigned integers or floats), every
